@@ -320,6 +320,41 @@ func init() {
 				c.Undecided("C30c: expected two assignments of blocksQueue in replaceBlocksQueue, found %d", n)
 			}
 		}
+		c.Rule("C30d latest block and hashes move together: setLatestBlockNum is called only by replaceBlocksQueue (and the constructor-time start), i.e. under the queue's write lock together with the new hashes — advanced earlier, a failed hash read leaves the tracker claiming a tip it holds no hash for. C30e fresh hashes: every hash readHashes stores into the new queue, and every hash it hands to the overlap search, is the first result of the FetchBlockHashByNum call of that same iteration — not a value remembered from earlier in the poll, which a reorganisation in between makes stale")
+		const ctK = "protocol/chaintracker.ChainTracker."
+		c.RequireCallers("C30d", ctK+"setLatestBlockNum", ctK+"replaceBlocksQueue")
+		if rh := c.P.Fn(ctK + "readHashes"); rh != nil {
+			fresh := func(v ssa.Value) bool {
+				d := ir.Desc(unconv(v))
+				return strings.HasPrefix(d, "invoke(protocol/chaintracker.IChainFetcherWrapper.FetchBlockHashByNum)(") && strings.HasSuffix(d, "#0") && !strings.HasPrefix(d, "phi{")
+			}
+			nH, bad := 0, ""
+			var at ssa.Instruction
+			ir.EachInstr(rh, func(in ssa.Instruction) {
+				if st, ok := in.(*ssa.Store); ok {
+					if fa, ok := st.Addr.(*ssa.FieldAddr); ok && ir.FieldKey(fa) == "protocol/chaintracker.BlockStore.Hash" {
+						nH++
+						if !fresh(st.Val) {
+							bad, at = "stores the hash "+trunc(ir.Desc(st.Val), 110), in
+						}
+					}
+				}
+				if call := ir.CallOf(in); call != nil && ir.CalleeName(call) == ctK+"hashesOverlapIndexes" {
+					nH++
+					if len(call.Args) < 5 || !fresh(call.Args[4]) {
+						bad, at = "searches the overlap with the hash "+trunc(ir.Desc(call.Args[len(call.Args)-1]), 110), in
+					}
+				}
+			})
+			switch {
+			case bad != "":
+				c.Fail("C30e/readHashes/hashes-come-from-this-iteration's-fetch", c.P.InstrPos(at), "readHashes "+bad+", which is not the answer FetchBlockHashByNum gave in this iteration")
+			case nH < 2:
+				c.Undecided("C30e: expected the hash store and the overlap search in readHashes, found %d", nH)
+			default:
+				c.OK("C30e/readHashes/hashes-come-from-this-iteration's-fetch", c.P.Pos(rh.Pos()), "stored hash and overlap-search hash are FetchBlockHashByNum(...)#0")
+			}
+		}
 		c.NotCovered("everything else in the property: latest block equality, the number and contiguity of stored hashes, their equality with the node's hashes after reorganisations, block-data query ranges")
 	})
 }
